@@ -195,18 +195,28 @@ def header_rule(chk, facts):
     c = facts.crate("candid")
     b = c.body(r"binary_parser::ConsType::to_type$")
     chk.analysed(b.key)
+    # to_type and the functions of binary_parser.rs it calls directly (the field loop may live in a helper of its own)
+    from facts import term_callee
+    bodies = [b]
+    for _bi, t_, _cal in b.call_sites():
+        d_, r_ = term_callee(t_)
+        for k_ in (d_, r_):
+            if k_ and k_ in c.bodies and k_ != b.key and c.bodies[k_].span["file"] == b.span["file"] and c.bodies[k_] not in bodies \
+                    and not re.search(r"::to_type$", k_):
+                bodies.append(c.bodies[k_])
     ge = []
-    for bi, blk in enumerate(b.blocks):
-        for st in blk["s"]:
-            if st["k"] == "assign" and st["r"].get("k") == "bin" and st["r"]["op"] in ("Ge", "Gt", "Le", "Lt"):
-                ge.append((bi, st))
+    for bb_ in bodies:
+        for bi, blk in enumerate(bb_.blocks):
+            for st in blk["s"]:
+                if st["k"] == "assign" and st["r"].get("k") == "bin" and st["r"]["op"] in ("Ge", "Gt", "Le", "Lt"):
+                    ge.append((bi, st))
     ops = sorted(st["r"]["op"] for _, st in ge)
     # record/variant: `prev >= f.id` on u32; service: `prev >= &m.name` is a PartialOrd::ge call
     u32_cmp = [st for _, st in ge if st["r"]["op"] in ("Ge", "Gt")]
     chk.expect(len(u32_cmp) == 1 and u32_cmp[0]["r"]["op"] == "Ge", "header:field-ids-strict",
                f"ConsType::to_type must reject a field id that is not strictly greater than its predecessor with `>=`; found comparisons {ops}",
                ok_detail="prev >= f.id ⇒ error")
-    name_cmp = [cal for _, t, cal in b.call_sites() if cal and re.search(r"PartialOrd.*::(ge|gt|le|lt)$", cal)]
+    name_cmp = [cal for bb_ in bodies for _, t, cal in bb_.call_sites() if cal and re.search(r"PartialOrd.*::(ge|gt|le|lt)$", cal)]
     chk.expect(len(name_cmp) == 1 and name_cmp[0].endswith("::ge"), "header:method-names-strict",
                f"ConsType::to_type must reject a method name that is not strictly greater than its predecessor with `>=`; found {name_cmp}",
                ok_detail="prev >= &m.name ⇒ error")
